@@ -176,7 +176,18 @@ func init() {
 					}
 				}
 			}
-			pools := [][]ref.Vox{poolLow, poolHigh}
+			// digit-boundary pool: an ancestor at a one-digit zoom with descendants at two-digit zooms (textual
+			// order "10/.." < "9/..", a leading '-' sorts before digits): nested voxels, both signs of f
+			var poolDigit []ref.Vox
+			for _, f := range []int64{-1, 0} {
+				root := ref.Vox{H: 9, X: 454, Y: 201, V: 9, F: f}
+				poolDigit = append(poolDigit, root)
+				kids := root.ChangeZoom(10, 10)
+				poolDigit = append(poolDigit, kids...)
+				poolDigit = append(poolDigit, kids[3].ChangeZoom(11, 11)...)
+				poolDigit = append(poolDigit, root.ChangeZoom(8, 8)...)
+			}
+			pools := [][]ref.Vox{poolLow, poolHigh, poolDigit}
 			kList := 6
 			if tier == "thorough" {
 				kList = 9
@@ -286,9 +297,9 @@ func init() {
 						}
 					}},
 				{Name: "index-collision-lists", ShardDepth: 3, Bounds: engine.Bounds{InputDev: -1},
-					Rule: "two pools of h=v voxels whose raw numbers coincide across zooms (zooms 1..3(4): all f x (x,y) in {0,1}^2; zooms 25..27: equal tree indices): all triples ([a],[b1,b2]) and ([b1,b2],[a]) through both array forms vs the disjunction of ref.Overlap; non-trivial = distinct triples where b1 and b2 are at different zooms",
+					Rule: "two pools of h=v voxels whose raw numbers coincide across zooms (zooms 1..3(4): all f x (x,y) in {0,1}^2; zooms 25..27: equal tree indices; zooms 8..11 nested across the one-digit/two-digit zoom boundary): all triples ([a],[b1,b2]) and ([b1,b2],[a]) through both array forms vs the disjunction of ref.Overlap; non-trivial = distinct triples where b1 and b2 are at different zooms",
 					Body: func(c *engine.Ctx) {
-						pool := pools[c.In("pool", 2)]
+						pool := pools[c.In("pool", 3)]
 						a := pool[c.In("a", len(pool))]
 						b1 := pool[c.In("b1", len(pool))]
 						b2 := pool[c.In("b2", len(pool))]
